@@ -252,122 +252,199 @@ pub(crate) fn c01_find_by_line_fast<S: Shape>() {
 // read fragmentation (1..=3 bytes per read()) and symbolic initial buffer
 // capacity 1..=4 with eager growth, against the same grep model the slice
 // strategy is held to (c03_slice_*): reader == model == slice.
-/// (initial capacity, bytes per read()): enumerated concretely so that buffer
-/// positions fold; the buffer mechanics under SYMBOLIC fragmentation and
-/// capacity are the line_buffer.rs lemmas (c02_linebuffer_*).  (A fully
-/// symbolic fragmentation here: 9 harnesses x 5 GB, no result in 11 minutes.)
+/// (initial capacity, bytes per read()): enumerated concretely.
 const FRAGS: [(usize, u8); 3] = [(1, 1), (2, 3), (4, 2)];
 
-fn c02_reader_body<S: Shape>(cfg: Cfg, frag: usize) {
-    let hit = any_hits::<S>();
-    let matcher = PlainMatcher::new::<S>(hit);
-    let searcher = build_searcher::<S>(&cfg, false);
-    let (want, complete) = model_events::<S>(&hit, &cfg);
+/// concrete per-line answers from the bits of `pat` (None if two lines with
+/// identical, empty content would get different answers)
+fn plain_from_bits<X: Shape>(pat: usize) -> Option<PlainMatcher> {
+    let mut hit = [false; MAXL];
+    let mut empty_seen = false;
+    let mut empty_val = false;
+    let mut k = 0;
+    while k < X::NL {
+        hit[k] = (pat >> k) & 1 == 1;
+        if X::CLEN[k] == 0 {
+            if empty_seen && empty_val != hit[k] {
+                return None;
+            }
+            empty_seen = true;
+            empty_val = hit[k];
+        }
+        k += 1;
+    }
+    Some(PlainMatcher { hit, hit_empty: empty_val, raw: false, termbyte: term_of::<X>().as_byte(), nl: X::NL })
+}
+
+fn run_reader_on<S: Shape>(
+    searcher: &Searcher,
+    matcher: &PlainMatcher,
+    lb: &mut crate::line_buffer::LineBuffer,
+    frag: usize,
+    sink: &mut RecSink,
+) -> bool {
+    let (_cap, chunk) = FRAGS[frag];
+    let fr = FragReader { hay: S::HAY, pos: 0, calls: 0, chunk: [chunk; MAXREADS], err_at: usize::MAX, err_interrupted: false };
+    let rdr = LineBufferReader::new(fr, lb);
+    ReadByLine::new(searcher, matcher, rdr, sink).run().is_ok()
+}
+
+/// Incremental reader strategy (ReadByLine over LineBufferReader) end to end.
+/// With a symbolic hit table or symbolic contexts the amount the searcher
+/// consumes at each roll is symbolic and with it every position inside the line
+/// buffer (measured: 16 of 20 harnesses time out at 20 min / run out of memory
+/// even on 2-line inputs).  So, as on the fast path, the harness ENUMERATES
+/// (concrete per iteration) the hit pattern (all 2^lines), invert,
+/// stop-on-nonmatch, passthru, (A,B) from a list and the fragmentation; line
+/// numbering stays symbolic.  The buffer mechanics under SYMBOLIC bytes and
+/// read sizes are the line_buffer.rs lemmas (thorough tier).
+/// `det`: 0 = no binary detection (C02: == grep model == slice strategy; with
+/// `reuse` the same line buffer serves two consecutive searches);
+/// 1 = quit, 2 = convert (C14; T = the shape with every NUL converted).
+fn reader_enum<S: Shape, T: Shape>(
+    det: u8,
+    frags: &[usize],
+    abs: &[(usize, usize)],
+    invs: &[bool],
+    stops: &[bool],
+    pts: &[bool],
+    reuse: bool,
+) {
+    let lnum: bool = kani::any();
+    let f = first_nul::<S>();
     let mut delivered_all = false;
-    let mut f = frag;
-    while f < frag + 1 {
-        let (cap, chunk) = FRAGS[f];
-        let mut lb = LineBufferBuilder::new()
-            .capacity(cap)
-            .line_terminator(term_of::<S>().as_byte())
-            .build();
-        let mut sink = RecSink::new(S::HAY);
-        let r = {
-            let frag = FragReader {
-                hay: S::HAY,
-                pos: 0,
-                calls: 0,
-                chunk: [chunk; MAXREADS],
-                err_at: usize::MAX,
-                err_interrupted: false,
-            };
-            let rdr = LineBufferReader::new(frag, &mut lb);
-            ReadByLine::new(&searcher, &matcher, rdr, &mut sink).run()
-        };
-        assert!(r.is_ok(), "search returns Ok");
-        assert_log_is_model(&sink, &want, complete, evcap::<S>());
-        if !complete {
-            // stop-on-nonmatch cut the search short: C02 asks for the same final
-            // byte count as the slice strategy reports (end of the cut line,
-            // established for the slice by c03_slice_stop / c03_slice_passthru)
-            let (_k, cut, _s) = model_lines::<S>(&hit, &cfg);
-            assert!(
-                sink.ev[sink.n - 1].off == S::LSTART[cut] as u64,
-                "byte count after stop-on-nonmatch equals the slice strategy's"
-            );
+    for &fr in frags {
+        for &(a, b) in abs {
+            for &inv in invs {
+                for &stop in stops {
+                    for &pt in pts {
+                        if pt && (a > 0 || b > 0) {
+                            continue;
+                        }
+                        let cfg = Cfg { a, b, invert: inv, passthru: pt, lnum, stop_nm: stop };
+                        let sdet = match det {
+                            1 => crate::searcher::BinaryDetection::quit(0),
+                            2 => crate::searcher::BinaryDetection::convert(0),
+                            _ => crate::searcher::BinaryDetection::none(),
+                        };
+                        let searcher = SearcherBuilder::new()
+                            .line_terminator(term_of::<S>())
+                            .invert_match(inv)
+                            .line_number(lnum)
+                            .after_context(a)
+                            .before_context(b)
+                            .passthru(pt)
+                            .stop_on_nonmatch(stop)
+                            .binary_detection(sdet)
+                            .bom_sniffing(false)
+                            .build();
+                        let ldet = match det {
+                            1 => crate::line_buffer::BinaryDetection::Quit(0),
+                            2 => crate::line_buffer::BinaryDetection::Convert(0),
+                            _ => crate::line_buffer::BinaryDetection::None,
+                        };
+                        let mut lb = LineBufferBuilder::new()
+                            .capacity(FRAGS[fr].0)
+                            .line_terminator(term_of::<S>().as_byte())
+                            .binary_detection(ldet)
+                            .build();
+                        let mut pat = 0;
+                        while pat < (1usize << T::NL) {
+                            if let Some(matcher) = plain_from_bits::<T>(pat) {
+                                let rounds = if reuse { 2 } else { 1 };
+                                let mut round = 0;
+                                while round < rounds {
+                                    // delivered bytes are compared with the input (the
+                                    // converted input in convert mode)
+                                    let mut sink = RecSink::new(if det == 2 { T::HAY } else { S::HAY });
+                                    let ok = run_reader_on::<S>(&searcher, &matcher, &mut lb, fr, &mut sink);
+                                    assert!(ok, "search returns Ok");
+                                    if det == 0 {
+                                        let (want, complete) = model_events::<S>(&matcher.hit, &cfg);
+                                        assert_log_is_model(&sink, &want, complete, evcap::<S>());
+                                        if !complete {
+                                            let (_k, cut, _s) = model_lines::<S>(&matcher.hit, &cfg);
+                                            assert!(
+                                                sink.ev[sink.n - 1].off == S::LSTART[cut] as u64,
+                                                "byte count after stop-on-nonmatch equals the slice strategy's"
+                                            );
+                                        }
+                                        if sink.n >= S::NL + 2 {
+                                            delivered_all = true;
+                                        }
+                                    } else {
+                                        assert!(!sink.saw_nul, "no NUL byte is delivered by the reader strategy");
+                                        let (mut rest, _at, cnt, off) = strip_binary(&sink, evcap::<T>() + 1);
+                                        if f == usize::MAX {
+                                            assert!(cnt == 0, "no NUL, no binary notice");
+                                            let (want, complete) = model_events::<T>(&matcher.hit, &cfg);
+                                            assert_log_is_model(&rest, &want, complete, evcap::<T>());
+                                        } else {
+                                            assert!(cnt == 1, "exactly one binary notice");
+                                            assert!(off == f as u64, "binary notice carries the first NUL's offset");
+                                            let fin = rest.ev[rest.n - 1];
+                                            assert!(fin.kind == K_FINISH, "completion is signalled");
+                                            assert!(fin.aux == f as u64 + 1, "finish reports the binary offset");
+                                            if det == 1 {
+                                                // cut off at, or some whole lines before, the first NUL
+                                                let (want, _c) = model_events_upto::<S>(&matcher.hit, &cfg, f);
+                                                assert!(rest.n >= 2 && rest.n <= want.n, "no more is delivered than the search of the input before the first NUL");
+                                                assert!(fin.off <= f as u64, "bytes searched do not exceed the first NUL's offset");
+                                                rest.n -= 1;
+                                                assert_prefix::<S>(&rest, &want, rest.n - 1);
+                                                let mut i = 0;
+                                                while i < evcap::<S>() {
+                                                    if i < rest.n {
+                                                        assert!(want.ev[i].kind != K_FINISH, "a prefix of the line events");
+                                                    }
+                                                    i += 1;
+                                                }
+                                            } else {
+                                                let (want, complete) = model_events::<T>(&matcher.hit, &cfg);
+                                                rest.ev[rest.n - 1].aux = 0;
+                                                assert_log_is_model(&rest, &want, complete, evcap::<T>());
+                                            }
+                                        }
+                                        delivered_all = true;
+                                    }
+                                    round += 1;
+                                }
+                            }
+                            pat += 1;
+                        }
+                        std::mem::forget(lb);
+                        std::mem::forget(searcher);
+                    }
+                }
+            }
         }
-        if sink.n >= S::NL + 2 {
-            delivered_all = true;
-        }
-        std::mem::forget(lb);
-        f += 1;
     }
     kani::cover!(delivered_all, "reach-end");
-    std::mem::forget(searcher);
 }
 
-/// One Searcher-owned line buffer reused for two consecutive searches (as
-/// `Searcher::search_reader` does for every file): the second search must
-/// report exactly what the first did, including offsets and the byte count.
-pub(crate) fn c02_reader_reuse<S: Shape>() {
-    let cfg = c02_ctx_cfg();
-    let hit = any_hits::<S>();
-    let matcher = PlainMatcher::new::<S>(hit);
-    let searcher = build_searcher::<S>(&cfg, false);
-    let (want, complete) = model_events::<S>(&hit, &cfg);
-    let mut lb = LineBufferBuilder::new()
-        .capacity(2)
-        .line_terminator(term_of::<S>().as_byte())
-        .build();
-    let mut round = 0;
-    while round < 2 {
-        let mut sink = RecSink::new(S::HAY);
-        let r = {
-            let frag = FragReader { hay: S::HAY, pos: 0, calls: 0, chunk: [3; MAXREADS], err_at: usize::MAX, err_interrupted: false };
-            let rdr = LineBufferReader::new(frag, &mut lb);
-            ReadByLine::new(&searcher, &matcher, rdr, &mut sink).run()
-        };
-        assert!(r.is_ok(), "search returns Ok");
-        assert_log_is_model(&sink, &want, complete, evcap::<S>());
-        round += 1;
-    }
-    kani::cover!(true, "reach-end");
-    std::mem::forget(lb);
-    std::mem::forget(searcher);
+/// capacity 1 / 1-byte reads (a roll and a grow at every byte); contexts (0,0),(1,1); invert
+pub(crate) fn c02_reader_tiny<S: Shape>() {
+    reader_enum::<S, S>(0, &[0], &[(0, 0), (1, 1)], &[false, true], &[false], &[false], false)
 }
-
-fn c02_ctx_cfg() -> Cfg {
-    let mut cfg = any_cfg(1);
-    cfg.passthru = false;
-    cfg.stop_nm = false;
-    cfg
+/// capacity 2 / 3-byte reads and capacity 4 / 2-byte reads; asymmetric contexts; stop-on-nonmatch
+pub(crate) fn c02_reader_wide<S: Shape>() {
+    reader_enum::<S, S>(0, &[1, 2], &[(1, 0), (0, 1)], &[false], &[false, true], &[false], false)
 }
-
-/// 1-byte capacity, 1-byte reads (a roll and a grow for every byte)
-pub(crate) fn c02_reader_ctx_tiny<S: Shape>() {
-    c02_reader_body::<S>(c02_ctx_cfg(), 0)
-}
-/// capacity 2, 3-byte reads
-pub(crate) fn c02_reader_ctx_mid<S: Shape>() {
-    c02_reader_body::<S>(c02_ctx_cfg(), 1)
-}
-/// capacity 4, 2-byte reads
-pub(crate) fn c02_reader_ctx_wide<S: Shape>() {
-    c02_reader_body::<S>(c02_ctx_cfg(), 2)
-}
-
-pub(crate) fn c02_reader_stop<S: Shape>() {
-    let mut cfg = any_cfg(1);
-    cfg.passthru = false;
-    cfg.stop_nm = true;
-    c02_reader_body::<S>(cfg, 0)
-}
-
+/// passthru (with and without invert / stop-on-nonmatch)
 pub(crate) fn c02_reader_passthru<S: Shape>() {
-    let mut cfg = any_cfg(0);
-    cfg.passthru = true;
-    cfg.stop_nm = false;
-    c02_reader_body::<S>(cfg, 1)
+    reader_enum::<S, S>(0, &[0, 1], &[(0, 0)], &[false, true], &[false, true], &[true], false)
+}
+/// one line buffer reused for two consecutive searches (as Searcher does per file)
+pub(crate) fn c02_reader_reuse<S: Shape>() {
+    reader_enum::<S, S>(0, &[1], &[(1, 1)], &[false], &[false], &[false], true)
+}
+/// C14: quit detection through the reader
+pub(crate) fn c14_reader_quit<S: Shape>() {
+    reader_enum::<S, S>(1, &[0, 2], &[(0, 0), (1, 1)], &[false, true], &[false], &[false], false)
+}
+/// C14: convert detection through the reader (T = S with NULs converted)
+pub(crate) fn c14_reader_convert<S: Shape, T: Shape>() {
+    reader_enum::<S, T>(2, &[0, 1], &[(0, 0), (1, 1)], &[false, true], &[false], &[false], false)
 }
 
 include!("c13.rs");
